@@ -34,6 +34,9 @@ type c16Case struct {
 	// Corrupt: (blob paths, with companion) the companion event's identity string is overwritten with invalid UTF-8
 	// after encoding, so the blob no longer decodes and cannot be repaired (not a failure message)
 	Corrupt bool `json:"corrupt,omitempty"`
+	// Repairable: (blob paths) every event blob also holds a failure message with an invalid UTF-8 byte: the blob must
+	// be repaired first and is then checked like any other
+	Repairable bool `json:"repairable,omitempty"`
 }
 
 const (
@@ -47,6 +50,8 @@ const (
 func c16Enum(d protoreflect.MessageDescriptor) []vfshared.Path {
 	return vfshared.EnumPaths(d, vfshared.IsNamespaceNameField, vfshared.EnumOptions{MaxRepeat: 1, FailureExtra: 1, ThroughBlobs: true})
 }
+
+var c16LastRepaired bool // set by c16Run: the request's blobs really needed (and got) the repairable treatment
 
 func c16Run(c c16Case) error {
 	m, ok := vfFindMethod(c.Method)
@@ -92,7 +97,16 @@ func c16Run(c c16Case) error {
 		corrupted = c16CorruptBlobs(req.ProtoReflect())
 	}
 	original := proto.Clone(req)
+	repaired := false
+	if c.Repairable && !corrupted {
+		w, ref, n := vfMakeRepairable(req)
+		if n > 0 {
+			req, original = w, ref
+			repaired = true
+		}
+	}
 
+	c16LastRepaired = repaired
 	var chain []grpc.UnaryServerInterceptor
 	if c.Translation {
 		// inbound server: requests remote->local, responses local->remote
@@ -246,7 +260,7 @@ func c16Classify(st *vfshared.Stats, c c16Case, paths []vfshared.Path) {
 	}
 }
 
-const c16Rule = "every unary request type of both services x every namespace-name path in it (descriptors; through event blobs; failure chains): forbidden name at exactly that path (allowed, non-empty names everywhere else) => PermissionDenied and handler never called; allowed everywhere => handler called once with the (translated) request; x {no translation, translation remote->local, translation + bypass header}; plus random multi-path combinations; non-trivial = forbidden name at depth>=3 or inside a blob, or allowed only because translation ran first; distinct = (method, paths, forbidden flags, translation, bypass, companion)"
+const c16Rule = "every unary request type of both services x every namespace-name path in it (descriptors; through event blobs; failure chains): forbidden name at exactly that path (allowed, non-empty names everywhere else) => PermissionDenied and handler never called; allowed everywhere => handler called once with the (translated) request; x {no translation, translation remote->local, translation + bypass header}; blob paths additionally with a failure message holding invalid UTF-8 in the same batch (the blob is repaired first and then checked) and with an undecodable batch (fail closed); plus random multi-path combinations; non-trivial = forbidden name at depth>=3 or inside a blob, or allowed only because translation ran first; distinct = (method, paths, forbidden flags, translation, bypass, companion)"
 
 func TestVF_C16_Paths(t *testing.T) {
 	const part = "paths"
@@ -286,6 +300,16 @@ func TestVF_C16_Paths(t *testing.T) {
 						}
 						c16Classify(st, c, []vfshared.Path{p})
 						n++
+						if viaBlob {
+							cr := c
+							cr.Repairable = true
+							if err := c16Run(cr); err != nil {
+								c16Fail(t, st, part, cr, err)
+							}
+							if c16LastRepaired {
+								st.Case(vfshared.Fingerprint(cr), true, "blob_needs_utf8_repair_first")
+							}
+						}
 						if companion && forbidden {
 							c.Corrupt = true
 							if err := c16Run(c); err != nil {
@@ -354,9 +378,13 @@ func TestVF_C16_Random(t *testing.T) {
 		c.Translation = rapid.Bool().Draw(rt, "translation")
 		c.Bypass = c.Translation && rapid.IntRange(0, 2).Draw(rt, "bypass") == 0
 		c.Companion = rapid.Bool().Draw(rt, "companion")
+		c.Repairable = rapid.IntRange(0, 3).Draw(rt, "repairable") == 0
 		// merging several paths that share a oneof would let the later branch win and drop the earlier leaf
 		if err := c16Run(c); err != nil {
 			c16Fail(rt, st, part, c, err)
+		}
+		if c16LastRepaired {
+			st.Class("blob_needs_utf8_repair_first", 1)
 		}
 		c16Classify(st, c, chosen)
 	})
